@@ -7,7 +7,7 @@ from .common import TOL
 
 PROPERTY = "C06"
 LEVEL = "exploration"
-RUNS = {"quick": 900, "thorough": 40000}
+RUNS = {"quick": 2500, "thorough": 40000}
 RULE = ("seeded scenarios: 1-3 scripted clients send 5-40 block-wise request datagrams (Block1 sequences in order, "
         "restarted at 0, repeated, skipped, with wrong payload length, last block first, changing SZX; Block2 requests "
         "with arbitrary NUM/SZX with and without a preceding block-0 request) to a real server with a recording "
